@@ -6,8 +6,6 @@ import (
 	"arkverif/sim"
 )
 
-func cmdTrace(args []string) int                    { fmt.Println("not built yet"); return 2 }
-func cmdPar(args []string) int                      { fmt.Println("not built yet"); return 2 }
-func replayPar(rp *sim.Replay, path string) int     { fmt.Println("not built yet"); return 2 }
-func checkPar(tier string, seed uint64) int         { fmt.Println("not built yet"); return 2 }
-func checkTrace(prop, tier string, seed uint64) int { fmt.Println("not built yet"); return 2 }
+func cmdPar(args []string) int                  { fmt.Println("not built yet"); return 2 }
+func replayPar(rp *sim.Replay, path string) int { fmt.Println("not built yet"); return 2 }
+func checkPar(tier string, seed uint64) int     { fmt.Println("not built yet"); return 2 }
